@@ -295,7 +295,7 @@ static void run_group(Context& cx, const Group& g, const Resolved& r, bool mine)
         uint64_t total = 1;
         for (auto& l : L)
             total *= l.size();
-        uint64_t cap = thorough ? (1ull << 33) : (1ull << 20);
+        uint64_t cap = thorough ? (1ull << 29) : (1ull << 20);
         if (cx.opt.prop == "C17" && !thorough)
             cap = 1ull << 17; // C17 runs 24 targets per case (scalar + batch): the dense sweeps belong to C01/C07
         cap *= (uint64_t)std::max<long>(1, cx.opt.sweep);
@@ -304,7 +304,7 @@ static void run_group(Context& cx, const Group& g, const Resolved& r, bool mine)
             uint64_t stride = 1;
             if (total > cap)
                 stride = (total / cap) | 1;
-            int rot = stride == 1 && total * imms.size() <= (1u << 16) ? 64 : (thorough ? 8 : (stride == 1 ? 2 : 1));
+            int rot = stride == 1 && total * imms.size() <= (1u << 16) ? 64 : (thorough ? 2 : (stride == 1 ? 2 : 1));
             if (nv >= 3)
                 rot = 1;
             const bool heavy = total / stride * imms.size() > (1u << 18);
